@@ -372,6 +372,11 @@ CHECKS = {
     technique='runtime monitoring: reference model (brute-force enumeration of the whole domain product by the check) against the labelled solutions of library(clpz), plus integer arithmetic of the check for ground constraints',
     text='Random systems of 1-4 constraints over 2-4 variables with interval domains inside -4..9 (also unions of two intervals), posted in random order relative to the domains: relations #= #\\= #< #=< #> #>= over expressions of depth <= 3 (+ - * abs min max // mod rem, unary minus), sum/3 with a random relation, all_different/1, all_distinct/1, reified combinations (#<==> #==> #\\/ #/\\ #\\) with a 0/1 variable; labelled with label/1 or labeling/2 under random strategy options; the list of solutions must equal, with multiplicity, the assignments that satisfy all constraints. Ground stratum: X #= ground expression equals the integer value (fails for a zero divisor) and ground relations agree with integer comparison.',
     note='Domains are small (the property says bounded domains); no division inside reified constraints (its meaning for a zero divisor is not documented); ^, tuples_in, element, circuit, cumulative and optimisation options are not generated.'),
+ 'C38': dict(
+    level='exploration',
+    technique='runtime monitoring: reference models computed by the check (naive least-fixpoint iteration for tabled Datalog programs; a direct interpreter for effect programs run under a reset/3 handler)',
+    text='Tabling: random edge relations on 2-6 nodes (cycles, self loops) with left, right and double recursive transitive closure in either clause order and random range-restricted Datalog programs over two mutually recursive tabled predicates; calls with no, one or both arguments bound must return exactly the least-fixpoint answers, each once, within 60 s; on acyclic graphs the untabled right-recursive program must give the same set. reset/shift: random effect programs (get/put of a threaded state, yield, arithmetic on locals, two levels of sub-predicates that shift themselves, if-then-else, inner reset blocks that capture the yields of their block only) run under a handler written with reset/3; final state, list of yields and the output computed after the last shift must equal the interpreter of the check; reset/3 of a goal that never shifts gives none on every solution.',
+    note='Shifts under backtracking into the continuation (non-deterministic continuations), tabled predicates with non-ground or non-atomic answers and abolish_all_tables/0 are not generated.'),
 }
 
 NOT_APPLICABLE_REASON_UNBUILT = ('check designed in DESIGN.md but not built/validated yet in this session; '
